@@ -130,6 +130,7 @@ def sankey_cases(prog, rep, fails):
                     settings.append((slice_kind, excl_p, excl_f, split, False))
                     if split is None and excl_f == [] and slice_kind == "none":
                         settings.append((slice_kind, excl_p, excl_f, split, "ids"))     # hand-built system: ids not in listing order, with gaps
+                        settings.append((slice_kind, excl_p, excl_f, split, "display"))  # display_names: every process renamed, two of them to the SAME label
                     if split is None and (excl_p or excl_f) and excl_p != []:
                         # history: the plotter exists (and has plotted) with default exclusions; the exclusions are then assigned
                         settings.append((slice_kind, excl_p, excl_f, split, True))
@@ -175,6 +176,16 @@ def sankey_cases(prog, rep, fails):
             if late == "ids":
                 inp["process_ids"] = proc_ids
                 late = False
+            shown_as = None
+            if late == "display":
+                late = False
+                shown0 = [p for p in graph[0] if p not in (["sysenv"] if excl_p is None else excl_p)]
+                if len(shown0) < 2:
+                    continue
+                shown_as = {p: f"P{i}" for i, p in enumerate(shown0)}
+                shown_as[shown0[-1]] = shown_as[shown0[0]]          # e.g. two plants shown under one short label
+                kw["display_names"] = dict(shown_as)
+                inp["display_names"] = dict(shown_as)
             if late:
                 inp["history"] = "plotter built and plotted without these exclusions; exclude_processes / exclude_flows assigned afterwards; plot() again"
                 late_kw = {k: kw.pop(k) for k in ("exclude_processes", "exclude_flows") if k in kw}
@@ -221,6 +232,10 @@ def sankey_cases(prog, rep, fails):
                         exp.append((fr, to, t_sum({vkey(w.items(l)) for l in rest}, Xs), n))
                 if exp is not None:
                     labels = list(nodes.get("label", [])) if isinstance(nodes, dict) else None
+                    shown = (lambda p: shown_as.get(p, p)) if shown_as else (lambda p: p)
+                    node_of = {}
+                    if labels is not None and shown_as and len(labels) != len(shown_p):
+                        problems.append(f"{len(labels)} nodes for {len(shown_p)} shown processes")
                     if labels is None or not isinstance(links, dict):
                         problems.append("links / nodes not passed to the Sankey trace")
                     else:
@@ -238,8 +253,13 @@ def sankey_cases(prog, rep, fails):
                                     problems.append(f"link '{lab}': value is {NP.show(vs) if vs else v!r}, the flow's total after the slice is {NP.show(term)}"[:300])
                                 if not (isinstance(s, int) and isinstance(t, int) and 0 <= s < len(labels) and 0 <= t < len(labels)):
                                     problems.append(f"link '{lab}': source/target {s}/{t} outside the node list of length {len(labels)}")
-                                elif labels[s] != fr or labels[t] != to:
+                                elif labels[s] != shown(fr) or labels[t] != shown(to):
                                     problems.append(f"link '{lab}' runs from node '{labels[s]}' to '{labels[t]}', the flow from '{fr}' to '{to}'")
+                                else:
+                                    # a node belongs to ONE process (also when two processes are displayed under the same label)
+                                    for node, p in ((s, fr), (t, to)):
+                                        if node_of.setdefault(node, p) != p:
+                                            problems.append(f"link '{lab}': node {node} ('{labels[node]}') stands for process '{node_of[node]}' and for '{p}'")
             ok = not problems
             rep.oblige(rid, ok, where="PlotlySankeyPlotter._get_links_dict", what=str(inp), distinct=(rid, gi, str(inp)))
             if not ok:
@@ -270,9 +290,13 @@ def plot_cases(prog, rep, fails):
                         if xarr == "subset" and len(dims) < 2:
                             continue
                         one_plot_case(prog, rep, fails, rid, cls_name, dims, roles, by, xarr, chart)
+                        if cls_name == "PlotlyArrayPlotter" and "subplot_dim" in roles and chart == "line" and xarr is None and by == "letter":
+                            # a figure laid out by the caller (one row / one column of cells) handed in through fig=
+                            for given in ("row", "column"):
+                                one_plot_case(prog, rep, fails, rid, cls_name, dims, roles, by, xarr, chart, given_fig=given)
 
 
-def one_plot_case(prog, rep, fails, rid, cls_name, dims, roles, by, xarr, chart):
+def one_plot_case(prog, rep, fails, rid, cls_name, dims, roles, by, xarr, chart, given_fig=None):
     if not take():
         return
     w = World(prog, "concrete")
@@ -281,6 +305,9 @@ def one_plot_case(prog, rep, fails, rid, cls_name, dims, roles, by, xarr, chart)
     install_plot_models(it, log)
     arr = w.array("y", dims)
     kw = dict(array=arr, chart_type=chart)
+    if given_fig:
+        n_sub = len(w.items(roles["subplot_dim"]))
+        kw["fig"] = it.hooks["plotly.subplots.make_subplots"](rows=1 if given_fig == "row" else n_sub, cols=n_sub if given_fig == "row" else 1)
     for k, l in roles.items():
         kw[k] = l if by == "letter" else l * 2
     xa = None
@@ -291,6 +318,8 @@ def one_plot_case(prog, rep, fails, rid, cls_name, dims, roles, by, xarr, chart)
     if xa is not None:
         kw["x_array"] = xa
     inp = {"plotter": cls_name, "array_dims": list(dims), **{k: v for k, v in kw.items() if isinstance(v, str)}, "x_array": xarr}
+    if given_fig:
+        inp["fig"] = f"make_subplots with one {given_fig} of {n_sub} cells, passed as fig="
     kind, pl = run_guarded(lambda: it.construct(prog.cls(cls_name), [], kw))
     rep.evaluations += 1
     if kind != "ok":
